@@ -8,4 +8,13 @@ for i in 01 02 03 04 05 06 07 08 09 10 11 12 13 14 15 16 17 18 19 20; do
   line=$(echo "$out" | tail -1)
   if [ $code -ne 0 ]; then fail=1; echo "FAIL($code) $line"; echo "$out" | grep -E "VIOLATION|ANALYSIS-ERROR" | head -5; else echo "ok      $line"; fi
 done
+if [ "$tier" = thorough ]; then
+  python3 - <<'PY'
+import json, glob
+for f in sorted(glob.glob('/verif/evidence/C*.json')):
+    d = json.load(open(f))['coverage'].get('selftest')
+    if d and (d['skipped'] or d['ok'] != d['variants']):
+        print("SELFTEST-STALE", f, [x for x in d['details'] if x['status'] != 'ok'])
+PY
+fi
 exit $fail
